@@ -19,6 +19,8 @@ type Config struct {
 	Defer   bool `json:"defer,omitempty"`
 	Recover bool `json:"recover,omitempty"`
 	Dry     bool `json:"dry,omitempty"`
+	// DryFalse: dig.DryRun(false) is passed explicitly (same as no option)
+	DryFalse bool `json:"dryfalse,omitempty"`
 }
 
 type Case struct {
@@ -164,6 +166,8 @@ type Opts struct {
 	// struct is reused for several calls; 0: a fresh pre-filled struct.
 	InfoSlot int  `json:"infoslot,omitempty"`
 	CB       bool `json:"cb,omitempty"`
+	// AsSplit: the As list is given as two dig.As options (they accumulate)
+	AsSplit bool `json:"assplit,omitempty"`
 	// ExportFalse: dig.Export(false) is passed explicitly (same as no option)
 	ExportFalse bool `json:"exportfalse,omitempty"`
 	// CBPanic: the callback panics the first time it is called (callbacks are
@@ -241,6 +245,9 @@ func (c *Case) Short() string {
 	if c.Cfg.Dry {
 		sb.WriteString("dry ")
 	}
+	if c.Cfg.DryFalse {
+		sb.WriteString("DryRun(false) ")
+	}
 	sb.WriteString("}")
 	for i, op := range c.Ops {
 		fmt.Fprintf(&sb, " %d:", i)
@@ -284,7 +291,11 @@ func (o *Opts) Short() string {
 		parts = append(parts, fmt.Sprintf("Group(%q)", o.Group))
 	}
 	if len(o.As) > 0 {
-		parts = append(parts, "As("+strings.Join(o.As, ",")+")")
+		if o.AsSplit && len(o.As) >= 2 {
+			parts = append(parts, "As("+o.As[0]+") As("+strings.Join(o.As[1:], ",")+")")
+		} else {
+			parts = append(parts, "As("+strings.Join(o.As, ",")+")")
+		}
 	}
 	if len(o.AsRaw) > 0 {
 		parts = append(parts, "AsRaw("+strings.Join(o.AsRaw, ",")+")")
